@@ -3,6 +3,12 @@
 # Static check of one property against /repo's current working tree (loaded and type-checked on
 # every run). Exit 0: every obligation discharged or a listed known finding; exit 1 + VIOLATION
 # lines: an unlisted violated or undecided obligation; exit 2: environment/checker fault.
+#
+# thorough = quick + (a) the overlay self-test of the checker (mutant/benign corpus) and (b) a
+# replay of the stored seeded changes of this property and of the stored behaviour-preserving
+# refactorings, each applied to a scratch copy of the current tree outside /repo and /verif (removed
+# afterwards). (b) measures the check's detection power and silence on today's tree; it prints
+# REPLAY lines and SELFTEST-WARNING lines and never changes the exit status.
 cd "$(dirname "$0")" || exit 2
 export GOFLAGS=-mod=mod GOPROXY=off GOSUMDB=off GOTOOLCHAIN=local
 unset GOWORK
@@ -10,4 +16,41 @@ REPO="${VERIF_REPO:-/repo}"
 if [ ! -x bin/protolint ] || [ -n "$(find checker -newer bin/protolint -name '*.go' 2>/dev/null | head -1)" ]; then
   (cd checker && go build -o ../bin/protolint .) || exit 2
 fi
-exec bin/protolint -repo "$REPO" -verif "$(pwd)" -property "$1" -tier "${2:-${VERIF_TIER:-quick}}"
+P="$1"; TIER="${2:-${VERIF_TIER:-quick}}"
+bin/protolint -repo "$REPO" -verif "$(pwd)" -property "$P" -tier "$TIER"
+rc=$?
+[ "$TIER" = thorough ] || exit $rc
+[ "${VERIF_NO_REPLAY:-}" = 1 ] && exit $rc
+V=$(pwd)
+S=$(mktemp -d /tmp/verif-replay.XXXXXX) || exit $rc
+trap 'rm -rf "$S"' EXIT INT TERM
+# scratch copy of the working tree (no .git needed: git apply works on plain directories)
+(cd "$REPO" && tar --exclude=.git -cf - .) | (cd "$S" && tar -xf -) || { echo "SELFTEST-WARNING: cannot copy $REPO"; exit $rc; }
+base="$S/.base"; "$V/bin/protolint" -repo "$REPO" -verif "$V" -property "$P" -no-evidence 2>/dev/null | grep '^FIRED' | awk '{print $3}' | sort > "$base"
+caught=0; missed=0; na=0
+for sd in "$V"/seeded/"$P"-*/; do
+  [ -f "$sd/patch.diff" ] || continue
+  id=$(basename "$sd")
+  if ! (cd "$S" && git apply --check "$sd/patch.diff" 2>/dev/null); then na=$((na+1)); continue; fi
+  (cd "$S" && git apply "$sd/patch.diff")
+  new=$("$V/bin/protolint" -repo "$S" -verif "$V" -property "$P" -no-evidence 2>/dev/null | grep '^FIRED' | awk '{print $3}' | sort | comm -13 "$base" - | head -1)
+  (cd "$S" && git apply -R "$sd/patch.diff")
+  if [ -n "$new" ]; then caught=$((caught+1)); else missed=$((missed+1)); echo "SELFTEST-WARNING: seeded change $id is not reported by $P"; fi
+done
+silent=0; noisy=0; bna=0
+for bd in "$V"/benign/*.diff; do
+  [ -f "$bd" ] || continue
+  if ! (cd "$S" && git apply --check "$bd" 2>/dev/null); then bna=$((bna+1)); continue; fi
+  (cd "$S" && git apply "$bd")
+  new=$("$V/bin/protolint" -repo "$S" -verif "$V" -property "$P" -no-evidence 2>/dev/null | grep '^FIRED' | awk '{print $3}' | sort | comm -13 "$base" - | head -1)
+  (cd "$S" && git apply -R "$bd")
+  if [ -z "$new" ]; then silent=$((silent+1)); else noisy=$((noisy+1)); echo "SELFTEST-WARNING: behaviour-preserving refactoring $(basename "$bd") makes $P report $new"; fi
+done
+echo "REPLAY $P: seeded changes $caught caught, $missed missed, $na not applicable; refactorings $silent silent, $noisy noisy, $bna not applicable"
+# record what the replay covered in the evidence file the checker just wrote
+if command -v jq >/dev/null 2>&1 && [ -f "$V/evidence/$P.json" ]; then
+  jq --argjson c "$caught" --argjson m "$missed" --argjson n "$na" --argjson s "$silent" --argjson y "$noisy" --argjson b "$bna" \
+    '.coverage.replay = {seeded_changes_caught: $c, seeded_changes_missed: $m, seeded_changes_not_applicable: $n, refactorings_silent: $s, refactorings_noisy: $y, refactorings_not_applicable: $b}' \
+    "$V/evidence/$P.json" > "$S/.ev" && cp "$S/.ev" "$V/evidence/$P.json"
+fi
+exit $rc
